@@ -465,6 +465,23 @@ def run (a : InitArgs) (ops : List Op) : St := ops.foldl step (initSt a)
 /-- everything an observer of the backend (and of the emitted key files) ever sees -/
 def written (a : InitArgs) (ops : List Op) : List (Term × Term) := (run a ops).log
 
+/-! ## commands as issued by a CLIENT: the client's view of the repository
+
+Every command is issued by a client (one `Repository` object) whose `unlock` — or the config lookup of `add_key` — concluded
+what `RepositoryProps.encrypted` is from the bytes it parsed as "the config".  `run` takes that view to be the repository's own
+flag.  `runView` does not: each command carries the view the client REALLY had (any client-side state — cache directory,
+earlier repositories used on the same machine, an earlier incarnation of a re-initialised location — may have produced it);
+the repository's own flag, its users and its objects are untouched by the view. -/
+
+/-- one command issued by a client that believes `encrypted = view` -/
+def stepView (s : St) (view : Bool) (op : Op) : St :=
+  { step { s with encrypted := view } op with encrypted := s.encrypted }
+
+def runView (a : InitArgs) (ops : List (Bool × Op)) : St := ops.foldl (fun s vo => stepView s vo.1 vo.2) (initSt a)
+
+/-- everything emitted by a history of client commands -/
+def writtenView (a : InitArgs) (ops : List (Bool × Op)) : List (Term × Term) := (runView a ops).log
+
 /-! ## shapes of names -/
 def isMac : Term → Bool
   | mac _ _ => true
